@@ -16,6 +16,7 @@ const (
 	sigError     = 3
 	sigLookahead = 4
 	sigPartition = 5
+	sigEntry     = 6
 )
 
 func computeRuleClasses(t *Tables, g *Grammar) []int {
@@ -56,11 +57,16 @@ func computeRuleClasses(t *Tables, g *Grammar) []int {
 	return ruleClass
 }
 
-func partitionStatesByAction(t *Tables, ruleClass []int, numStates int) ([]int, *container.IntSliceSet) {
+func partitionStatesByAction(t *Tables, ruleClass []int, numStates, numInputs int) ([]int, *container.IntSliceSet) {
 	// Initial partitions based on reductions and actions
 	// Signature of a state:
 	//    Action[s], plus LALR entries substituting rule -> ruleClass
 	stateSignature := func(s int) []int {
+		if s < numInputs {
+			// Generated parsers start parsing the i-th input in state i, so the entry states
+			// have to stay apart and keep their indices.
+			return []int{sigEntry, s}
+		}
 		act := t.Action[s]
 		if act >= 0 {
 			return []int{sigReduce, ruleClass[act]}
@@ -159,7 +165,7 @@ func refinePartitions(partition []int, partitions *container.IntSliceSet, t *Tab
 func minimize(t *Tables, g *Grammar) {
 	numStates := t.NumStates
 	ruleClass := computeRuleClasses(t, g)
-	partition, partitions := partitionStatesByAction(t, ruleClass, numStates)
+	partition, partitions := partitionStatesByAction(t, ruleClass, numStates, len(g.Inputs))
 	partition, partitions = refinePartitions(partition, partitions, t)
 
 	if partitions.Len() == numStates {
